@@ -4,7 +4,7 @@
    [mk_list r0 [(s1,r1);…;(sn,rn)]] is the result  [r0, [[s1,r1],…,[sn,rn]]]  of  R % sep. *)
 From Coq Require Import List ZArith Bool.
 Import ListNotations.
-From V Require Import Base.Prelude Base.TplRes Model.C30 Proofs.C30.
+From V Require Import Base.Prelude Base.TplRes Model.C30 Proofs.C30 Proofs.C30Expr.
 
 (* List returns the R results in source order *)
 Theorem C30_list_flatten : forall r0 pairs, list_ (mk_list r0 pairs) = Ok (r0 :: map snd pairs).
@@ -48,6 +48,12 @@ Theorem C30_binary_expr_fold_left : forall r0 ps, is_expr r0 = true ->
   bexpr_nr (mk_list r0 (tok_pairs ps)) = Ok (fold_left (fun a p => RApp (fst p) a (snd p)) ps r0).
 Proof. exact bexpr_nr_fold_left. Qed.
 
+(* BinaryExpr(true, …) on list results nested to any depth whose leaves are ast.Expr values builds the
+   left-nested BinaryExpr tree of the recursive fold *)
+Theorem C30_binary_expr_r_nested : forall x0 ps, nx_exprs (NNode x0 ps) = true ->
+  bexpr_r (nx_res (NNode x0 ps)) = Ok (nx_tree (NNode x0 ps)).
+Proof. exact bexpr_r_nested_node. Qed.
+
 (* the README calculator  expr = operand % ("*"|"/") % ("+"|"-")  folded with
    BinaryOp(true, self, fn) computes, for EVERY sequence n0 op1 n1 … opk nk, the value of the
    precedence-climbing reference evaluator *)
@@ -86,5 +92,6 @@ Print Assumptions C30_binary_op_fold_left_pure.
 Print Assumptions C30_binary_op_r_nested.
 Print Assumptions C30_binary_op_r_flat.
 Print Assumptions C30_binary_expr_fold_left.
+Print Assumptions C30_binary_expr_r_nested.
 Print Assumptions C30_calc_correct.
 Print Assumptions C30_calc_correct_struct.
